@@ -52,6 +52,8 @@ type FaultClient struct {
 	Counts    map[string]int
 	// Only, if non-empty, restricts fault consumption to the named op kind ("open", "write", "list", "delete").
 	Only string
+	// Once makes the plan one-shot: after len(Plan) calls every further call is clean (instead of cycling).
+	Once bool
 }
 
 func (c *FaultClient) next(op string) Fault {
@@ -59,6 +61,9 @@ func (c *FaultClient) next(op string) Fault {
 		c.Counts = map[string]int{}
 	}
 	if !c.Enabled || len(c.Plan) == 0 || (c.Only != "" && c.Only != op) {
+		return Fault{}
+	}
+	if c.Once && c.N >= len(c.Plan) {
 		return Fault{}
 	}
 	f := c.Plan[c.N%len(c.Plan)]
